@@ -38,6 +38,10 @@ PROPS = {
                 assumptions=STORAGE_ASSUME + ["the inner DenseVecStorage<T> is an opaque implementor of the trait-level storage contract here; its conformance is the bounded Kani part (C04 kinds)",
                                               "`T: AddAssign` is modelled by a spec function add_spec(old, new) (arbitrary, possibly non-commutative); `a += b` is desugared to AddAssign::add_assign(&mut a, b) (N16)",
                                               "FromIterator/Extend loops over a generic IntoIterator are not under contract (they call add once per pair in iteration order); the `&mut ChangeSet` non-lending Join member (SharedGetMutOnly) is not under contract"]),
+    'C15': dict(units=['marker'], witness=None,
+                assumptions=["REDUCED to the id-allocation core: SimpleMarkerAllocator::allocate / retrieve_entity_internal / SimpleMarker::id. The load driver (serde), MarkerAllocator::retrieve_entity and mark (they create through the shared entities resource while a WriteStorage borrows it: not expressible under the N3 sequentialisation; mark also uses a closure capturing &mut), maintain (iterator adaptors) and the UUID allocator are outside",
+                             "machine arithmetic: an explicit id must be < u64::MAX and fewer than 2^64 marks are counted; for id == u64::MAX `self.index = id + 1` overflows (panic in debug, wrap to 0 in release, after which fresh ids can collide) — recorded in DESIGN.md §7 as an edge-input observation outside the contract",
+                             "std::collections::HashMap behaves as vstd's map model for u64 keys (vstd's assumed specification of std)"]),
     'C05': dict(units=['world'], witness='alloc',
                 assumptions=[HEADROOM, "WorldExt::delete_components is an ASSUMED contract (its body iterates shred's MetaTable<dyn AnyStorage>): it removes exactly the given indices from every listed storage and touches nothing else",
                              "World accessors (entities_mut, write_resource) are stubs with the documented shred behaviour; LazyUpdate::maintain is unconstrained"]),
@@ -46,6 +50,10 @@ PROPS = {
 TB = "Trusted: prelude stubs for hibitset / NonZeroI32 / atomics / Vec::extend (assumed contracts), N3 sequentialisation, headroom preconditions, Verus+Z3, the vx extractor's closed list of normalisations (each application recorded in the evidence)."
 
 MANIFEST_TEXT = {
+    'C15': dict(
+        level="Reduced unbounded proof of the uniqueness mechanism: invariant 'every id in the table is below the counter' is preserved by allocate; a counted id is the old counter (hence not in the table); an explicit id bumps the counter to max(counter, id+1); the table gains exactly (id -> entity) overwriting a stale entry; lookup is the table lookup. Merge-by-marker at the World level is outside (see assumptions).",
+        design_ref='DESIGN.md §5 C15', note='vstd model of std HashMap; arithmetic headroom precondition; everything above allocate is outside.',
+        technique='Verus data-structure invariant + exact postconditions on the extracted allocator functions'),
     'C16': dict(
         level="Unbounded proof: ChangeSet::add maps the abstract map m to m[id := add_spec(m[id], v)] when id is present (stored value first, new amount second: arrival order) and to m[id := v] otherwise, keeps mask and storage in step; clear empties it; the shared, by-value and lending join members are real trait impls verified against the Join contract (items are exactly the stored amounts; the consuming member removes exactly the fetched slot). With C06's iterator contract each accumulated amount is produced once. A fold lemma shows an unmentioned entity gets nothing.",
         design_ref='DESIGN.md §5 C16', note=TB + ' dense storage conformance bounded (Kani).',
